@@ -10,7 +10,13 @@ pub struct Parser<'a> {
     current: Token,
     peeked: Option<Token>,
     source: &'a str,
+    /// Current nesting depth of `parse_expression` (parentheses, lists, CASE, EXISTS subqueries).
+    expression_depth: usize,
 }
+
+/// Deepest expression nesting the parser accepts; deeper input is a syntax error rather than
+/// unbounded recursion (a stack overflow aborts the embedding process).
+const MAX_EXPRESSION_DEPTH: usize = 128;
 
 impl<'a> Parser<'a> {
     /// Creates a new parser for the given input.
@@ -22,6 +28,7 @@ impl<'a> Parser<'a> {
             current,
             peeked: None,
             source: input,
+            expression_depth: 0,
         }
     }
 
@@ -1023,7 +1030,13 @@ impl<'a> Parser<'a> {
     }
 
     fn parse_expression(&mut self) -> Result<Expression> {
-        self.parse_or_expression()
+        if self.expression_depth >= MAX_EXPRESSION_DEPTH {
+            return Err(self.error("expression is nested too deeply"));
+        }
+        self.expression_depth += 1;
+        let result = self.parse_or_expression();
+        self.expression_depth -= 1;
+        result
     }
 
     fn parse_or_expression(&mut self) -> Result<Expression> {
